@@ -387,6 +387,18 @@ impl DnsCache {
     pub(crate) fn evict_expired_services(&mut self, now: u64) -> HashMap<String, HashSet<String>> {
         let mut expired_instances = HashMap::new();
 
+        // Evict expired SRV records first, remembering the instances left without any, so
+        // that every ty_domain (type and subtype) pointing to such an instance reports it.
+        let mut srv_expired: HashSet<String> = HashSet::new();
+        self.srv.retain(|instance_name, srv_records| {
+            srv_records.retain(|srv| !srv.record.get_record().is_expired(now));
+            if srv_records.is_empty() {
+                srv_expired.insert(instance_name.clone());
+            }
+            // don't keep empty value for this key.
+            !srv_records.is_empty()
+        });
+
         // Check all ty_domain in the cache by following all PTR records, regardless
         // if the ty_domain is actively queried or not.
         for (ty_domain, ptr_records) in self.ptr.iter_mut() {
@@ -394,23 +406,12 @@ impl DnsCache {
                 if let Some(dns_ptr) = ptr.record.any().downcast_ref::<DnsPointer>() {
                     let instance_name = dns_ptr.alias();
 
-                    // evict expired SRV records of this instance
-                    if let Some(srv_records) = self.srv.get_mut(instance_name) {
-                        srv_records.retain(|srv| {
-                            let expired = srv.record.get_record().is_expired(now);
-                            !expired
-                        });
-
-                        if srv_records.is_empty() {
-                            debug!("expired SRV for {}: {:?}", ty_domain, instance_name);
-                            expired_instances
-                                .entry(ty_domain.to_string())
-                                .or_insert_with(HashSet::new)
-                                .insert(instance_name.to_string());
-
-                            // don't keep empty value for this key.
-                            self.srv.remove(instance_name);
-                        }
+                    if srv_expired.contains(instance_name) {
+                        debug!("expired SRV for {}: {:?}", ty_domain, instance_name);
+                        expired_instances
+                            .entry(ty_domain.to_string())
+                            .or_insert_with(HashSet::new)
+                            .insert(instance_name.to_string());
                     }
 
                     // evict expired TXT records of this instance
@@ -438,7 +439,7 @@ impl DnsCache {
 
         // Also evict expired SRV, TXT and NSEC records that no PTR record points to
         // (e.g. their PTR never arrived), so that they do not stay forever.
-        for records_map in [&mut self.srv, &mut self.txt, &mut self.nsec] {
+        for records_map in [&mut self.txt, &mut self.nsec] {
             records_map.retain(|_, records| {
                 records.retain(|r| !r.record.get_record().is_expired(now));
                 !records.is_empty()
